@@ -7,6 +7,7 @@ import (
 	"fmt"
 	"go/token"
 	"go/types"
+	"math"
 	"path/filepath"
 	"reflect"
 	"regexp"
@@ -83,6 +84,8 @@ func init() {
 		"html/template.JSEscapeString":   func(ex *Exec, a []Val) Val { return ex.jsEscape(a[0].(Str)) },
 		"text/template.JSEscapeString":   func(ex *Exec, a []Val) Val { return ex.jsEscape(a[0].(Str)) },
 		"regexp.Compile":                 mRegexpCompile,
+		"unicode.Is":                     mUnicodeIs,
+		"unicode.In":                     mUnicodeIs,
 		"sort.Slice":                     mSortSlice,
 		"sort.SliceStable":               mSortSlice,
 		"sort.Strings":                   mSortStrings,
@@ -1329,6 +1332,65 @@ func (ex *Exec) jsEscape(s Str) Str {
 	return Str{B: out}
 }
 
+// unicode.Is(table, r) / unicode.In(r, tables...) on concrete runes; tables are StdRef values
+func mUnicodeIs(ex *Exec, args []Val) Val {
+	var tabs []Val
+	var r Int
+	if i, ok := args[0].(Int); ok { // unicode.In(r, tables...)
+		r = i
+		sl, _ := args[1].(Slice)
+		tabs = sl.elems()
+	} else {
+		tabs = []Val{args[0]}
+		r = args[1].(Int)
+	}
+	if r.T != nil {
+		unsupported("unicode.Is on a symbolic rune")
+	}
+	for _, t := range tabs {
+		ref, ok := t.(StdRef)
+		if !ok {
+			unsupported("unicode.Is with a table the engine does not know")
+		}
+		name := strings.TrimPrefix(ref.Name, "unicode.")
+		tab := unicode.Categories[name]
+		if tab == nil {
+			tab = unicode.Scripts[name]
+		}
+		if tab == nil {
+			tab = unicode.Properties[name]
+		}
+		if tab == nil {
+			switch name {
+			case "Letter":
+				tab = unicode.L
+			case "Mark":
+				tab = unicode.M
+			case "Number":
+				tab = unicode.N
+			case "Punct":
+				tab = unicode.P
+			case "Symbol":
+				tab = unicode.S
+			case "Space":
+				tab = unicode.Z
+			case "Digit":
+				tab = unicode.Nd
+			case "Upper":
+				tab = unicode.Lu
+			case "Lower":
+				tab = unicode.Ll
+			default:
+				unsupported("unicode table %s", ref.Name)
+			}
+		}
+		if unicode.Is(tab, rune(r.signed())) {
+			return Bool{C: true}
+		}
+	}
+	return Bool{C: false}
+}
+
 // ---------------------------------------------------------------- sort (stable insertion sort, in place)
 
 func (ex *Exec) sortInPlace(sl Slice, less func(i, j int) bool) {
@@ -1430,6 +1492,10 @@ var nativeFns = map[string]interface{}{
 	"strconv.Quote":        strconv.Quote,
 	"strconv.FormatInt":    strconv.FormatInt,
 	"strconv.FormatBool":   strconv.FormatBool,
+	"strconv.FormatFloat":  strconv.FormatFloat,
+	"strconv.FormatUint":   strconv.FormatUint,
+	"math.Abs":             math.Abs,
+	"math.Floor":           math.Floor,
 	"path/filepath.Ext":    filepath.Ext,
 	"path/filepath.Base":   filepath.Base,
 	"unicode.IsPrint":      unicode.IsPrint,
@@ -1478,6 +1544,11 @@ func (ex *Exec) tryNativeCall(name string, fn *ssa.Function, args []Val) (Val, b
 				unsupported("%s on a symbolic bool", name)
 			}
 			in[i] = reflect.ValueOf(x.C)
+		case Float:
+			if x.U {
+				unsupported("%s on an unknown float", name)
+			}
+			in[i] = reflect.ValueOf(x.V).Convert(pt)
 		default:
 			return nil, false
 		}
@@ -1493,6 +1564,8 @@ func (ex *Exec) tryNativeCall(name string, fn *ssa.Function, args []Val) (Val, b
 			return goInt(int(v.Int()))
 		case reflect.Int32:
 			return cint(v.Int(), 32, true)
+		case reflect.Float64:
+			return Float{V: v.Float(), W: 64}
 		case reflect.Slice:
 			var vs []Val
 			for i := 0; i < v.Len(); i++ {
